@@ -1271,7 +1271,7 @@ def run(ctx):
     replace_histories(ctx)
     metadata_value_histories(ctx)
     unitary_dict_histories(ctx)
-    n = 200 if ctx.thorough else 60
+    n = 300 if ctx.thorough else 150
     maxops = 25 if ctx.thorough else 12
     for hid in range(n):
         ctx.torch_seed()
